@@ -171,3 +171,10 @@ pub broadcast group string_eq2 { ax_str_string_eq_spec, ax_str_string_eq_def }
 use vstd::std_specs::ops::*;
 pub broadcast axiom fn ax_string_add_assign_req<'a>(s: String, rhs: &'a str)
     ensures #[trigger] <String as AddAssignSpec<&'a str>>::add_assign_req(&s, rhs);
+
+// `E.parse::<usize>().unwrap()` (rule R18; FromStr is not declared to Verus): panics unless the text is a decimal usize
+pub uninterp spec fn is_usize_text(s: Seq<char>) -> bool;
+#[verifier::external_body]
+pub fn verif_parse_usize_unwrap(s: &str) -> (r: usize)
+    requires is_usize_text(s@)
+{ s.parse::<usize>().unwrap() }
